@@ -7,7 +7,8 @@ from checklib.core import enc
 PAIRS = [
     ('Beta', 'Bernoulli', 'bool', 'bool', lambda r, pv: r.random() < 0.5, 'BernoulliSuffStat'),
     ('UnitPowerLaw', 'Bernoulli', 'bool', 'bool', lambda r, pv: r.random() < 0.5, 'BernoulliSuffStat'),
-    ('Gamma', 'Poisson', 'u32', 'nat', lambda r, pv: gen.obs_nat(r), 'PoissonSuffStat'),
+    # counts up to the top of the observation type (u32): sums of a few of them exceed 2^32
+    ('Gamma', 'Poisson', 'u32', 'nat', lambda r, pv: gen.obs_nat(r) if r.random() < 0.85 else r.randint(2 ** 31, 2 ** 32 - 1), 'PoissonSuffStat'),
     ('Dirichlet', 'Categorical', 'usize', 'nat', lambda r, pv: r.randrange(len(pv[0])), 'CategoricalSuffStat'),
     ('SymmetricDirichlet', 'Categorical', 'usize', 'nat', lambda r, pv: r.randrange(pv[1]), 'CategoricalSuffStat'),
     ('NormalGamma', 'Gaussian', 'f64', 'real', lambda r, pv: gen.real(r), 'GaussianSuffStat'),
